@@ -714,6 +714,8 @@ impl FeoxStore {
                     .duration_since(UNIX_EPOCH)
                     .unwrap_or_default()
                     .as_nanos() as u64;
+                #[cfg(feoxdb_verif)]
+                let now = crate::verif::now_nanos().unwrap_or(now);
                 if now > ttl_expiry {
                     self.stats.ttl_expired_lazy.fetch_add(1, Ordering::Relaxed);
                     return Err(FeoxError::KeyNotFound);
